@@ -12,7 +12,7 @@ import (
 func init() {
 	Registry["C11"] = RuleDef{Module: ".", Run: runC11,
 		Technique:   "same-index correspondence rule over SSA values: paired appends to (commands, indexes) tables, placement of results through the paired index table, argument-pair agreement at the call sites that carry the tables",
-		Explanation: "Decides the index-map skeleton of batched cache reads: (R11e) in pipe.DoMultiCache the request groups built per missed command and the stride/offset of every reply walk agree for each mode, and holes are refilled only after every cached or awaited reply was placed (R11d: the same for the partial MGET); (R11a) wherever a cacheable command is filed into a per-connection or per-node batch (mux.DoMultiCache, cluster _pickMultiCache, resultcachefn re-queues), the same block files its original position into the sibling index table of the same batch object - the loop's own index when grouping the caller's batch, the carried original index cIndexes[i] of the very element commands[i] when re-queuing; (R11b) a reply is stored into the caller's result slice only at the index read from the index table at the reply's own position, the (indexes, commands, replies) triple handed to resultcachefn consists of sibling fields of one batch and the replies of executing exactly that command table; (R11c) helper doMultiCache pairs keys[i], the i-th command and the i-th reply by the same loop index.",
+		Explanation: "Decides the index-map skeleton of batched cache reads: (R11f) lru.Flights reports the missed positions in ascending batch order (the order in which DoMultiCache sends and refills); (R11e) a position is a hole only if it holds neither a value nor an error, and in pipe.DoMultiCache the request groups built per missed command and the stride/offset of every reply walk agree for each mode, and holes are refilled only after every cached or awaited reply was placed (R11d: the same for the partial MGET); (R11a) wherever a cacheable command is filed into a per-connection or per-node batch (mux.DoMultiCache, cluster _pickMultiCache, resultcachefn re-queues), the same block files its original position into the sibling index table of the same batch object - the loop's own index when grouping the caller's batch, the carried original index cIndexes[i] of the very element commands[i] when re-queuing; (R11b) a reply is stored into the caller's result slice only at the index read from the index table at the reply's own position, the (indexes, commands, replies) triple handed to resultcachefn consists of sibling fields of one batch and the replies of executing exactly that command table; (R11c) helper doMultiCache pairs keys[i], the i-th command and the i-th reply by the same loop index.",
 		NotDecided:  "the hole-refill walks in pipe.DoMultiCache / doCacheMGet (which positions are holes is data dependent) - the single-connection heart of the property; duplicates; the cache's answers."}
 	Registry["C20"] = RuleDef{Module: ".", Run: runC20,
 		Technique:   "same-index correspondence rule (as C11) on the cluster DoMulti tables, loop-bound identification for the transaction re-queue, tuple-agreement rule for pickMulti, slice-origin rule for lifetime recovery",
@@ -391,7 +391,7 @@ func strideAgreementRule(r *Report) {
 		if !ok || shortType(st.Val.Type()) != "rueidis.RedisResult" || !strings.HasSuffix(DescDeep(ia.X), ".s") {
 			continue
 		}
-		hole := false
+		hole, noErr := false, false
 		for _, g := range DomGuards(s.Block) {
 			x, op, y, cok := CmpGuard(g)
 			k, isk := ConstInt(y)
@@ -400,6 +400,14 @@ func strideAgreementRule(r *Report) {
 					hole = true
 				}
 			}
+			if cok && op == token.EQL && IsNilConst(y) && strings.HasSuffix(Desc(x), ".err") {
+				if _, ki, isel := elemOfDeep(x); isel && ki == ia.Index {
+					noErr = true
+				}
+			}
+		}
+		if hole {
+			r.ObSite("R11e", s, "hole-means-no-value-and-no-error", noErr, "a position counts as a hole only if it holds neither a value nor an error (a failed flight of another caller already answered that position)")
 		}
 		stores = append(stores, slotStore{s, hole})
 	}
@@ -441,7 +449,31 @@ func strideAgreementRule(r *Report) {
 	r.Anchor("R11e", "DoMultiCache: hole refills (>= 2)", nH >= 2)
 }
 
+// missListOrderRule (R11f): lru.Flights reports the missed positions in ascending order, because
+// pipe.DoMultiCache sends the requests in that order and hands the replies to the empty positions
+// in ascending order: every element of the miss list is the index of the pass over the batch,
+// appended inside that pass; nothing is appended to it afterwards.
+func missListOrderRule(r *Report) {
+	fn := r.FnAnchor("R11f", "rueidis.(*lru).Flights")
+	if fn == nil {
+		return
+	}
+	n := 0
+	for _, s := range CallSites(fn, "builtin.append") {
+		c := s.Instr.(*ssa.Call)
+		if shortType(c.Type()) != "[]int" {
+			continue
+		}
+		n++
+		es := variadicElemsOrdered(c.Call.Args[1])
+		ok := len(es) == 1 && isRangeIndexAny(es[0])
+		r.ObSite("R11f", s, "miss-list-in-batch-order", ok, "the miss list grows only by the index of the current batch position, so it is ascending")
+	}
+	r.Anchor("R11f", "Flights: miss list appends (>= 1)", n >= 1)
+}
+
 func runC11(r *Report) {
+	missListOrderRule(r)
 	strideAgreementRule(r)
 	nA, nP := 0, 0
 	for _, name := range []string{"rueidis.(*mux).DoMultiCache", "rueidis.(*clusterClient)._pickMultiCache", "rueidis.(*clusterClient).resultcachefn"} {
